@@ -512,15 +512,19 @@ def check_close_event(ctx, P, MV):
     if not real or not fc:
         bad = ("close does not call fiber_fd_closed / the real close", cl.loc, None)
     else:
-        # for an in-range descriptor the notification must precede the real close
-        env = Env(P)
-        atom = env.base(cl, [(is_param_load(cl, "fd"), 3)])
-        e = forced_edges(cl, atom)
-        w = cl.find_path("entry", nodeset(real), barrier=nodeset(fc), edge_ok=e)
-        if w is not None:
-            bad = ("the real close is reachable without fiber_fd_closed for a valid descriptor", real[0], w)
-        if not clr or cl.find_path("entry", "exit", barrier=nodeset(clr), edge_ok=e) is not None:
-            bad = bad or ("the flag byte of a valid descriptor is not cleared on close", cl.loc, None)
+        # for an in-range descriptor the notification must precede the real close — whatever mode the descriptor is in
+        # *now* (waiters may have registered while it was still in blocking mode) and whether or not this thread is I/O-locked
+        for flags in (0, MV["IO_FLAG_BLOCKING"], MV["IO_FLAG_WAITABLE"], MV["IO_FLAG_BLOCKING"] | MV["IO_FLAG_WAITABLE"]):
+            for tl in (0, 1):
+                env = Env(P, thread_locked=tl, flags=flags)
+                atom = env.base(cl, [(is_param_load(cl, "fd"), 3)])
+                e = forced_edges(cl, atom)
+                w = cl.find_path("entry", nodeset(real), barrier=nodeset(fc), edge_ok=e)
+                if w is not None:
+                    bad = bad or ("the real close is reachable without fiber_fd_closed for a valid descriptor (flag word %d, thread_locked=%d): fibers that "
+                                  "registered earlier are never woken and the stale epoll registration is inherited by the next owner of the number" % (flags, tl), real[0], w)
+                if not clr or cl.find_path("entry", "exit", barrier=nodeset(clr), edge_ok=e) is not None:
+                    bad = bad or ("the flag byte of a valid descriptor is not cleared on close (flag word %d)" % flags, cl.loc, None)
         for r in cl.returns():
             if not (r.kids and any(m in real for m in r.kids[0].walk())) and not (r.kids and strip(r.kids[0]).k == "DeclRefExpr"):
                 pass
